@@ -79,6 +79,42 @@ fn gamma(a: f64) -> f64 {
     }
 }
 
+/// Principal branch of the Lambert W function: Halley's method from an asymptotic
+/// starting point, iterated to convergence (at most 50 steps).
+fn lambert_w0(x: f64) -> f64 {
+    if x.is_nan() || x == f64::INFINITY || x == 0.0 {
+        return x;
+    }
+    let mut w = if x < -0.25 {
+        // series around the branch point -1/e
+        let p = (2.0 * (std::f64::consts::E * x + 1.0)).max(0.0).sqrt();
+        -1.0 + p - p * p / 3.0 + 11.0 / 72.0 * p * p * p
+    } else if x < 3.0 {
+        let l = (1.0 + x).ln();
+        l * (1.0 - (1.0 + l).ln() / (2.0 + l))
+    } else {
+        let l1 = x.ln();
+        let l2 = l1.ln();
+        l1 - l2 + l2 / l1
+    };
+    for _ in 0..50 {
+        #[cfg(feature = "verif_hooks")]
+        crate::verif_hooks::tick(3);
+        let exp_w = w.exp();
+        let f = w * exp_w - x;
+        let denominator = exp_w * (w + 1.0) - (w + 2.0) * f / (2.0 * w + 2.0);
+        if f == 0.0 || denominator == 0.0 || !denominator.is_finite() {
+            break;
+        }
+        let step = f / denominator;
+        w -= step;
+        if step.abs() <= 1e-16 * w.abs() {
+            break;
+        }
+    }
+    w
+}
+
 pub fn eval(expr: Node) -> Result<Number, Box<dyn error::Error>> {
     #[cfg(feature = "verif_hooks")]
     crate::verif_hooks::tick(2);
@@ -258,16 +294,7 @@ pub fn eval(expr: Node) -> Result<Number, Box<dyn error::Error>> {
             if sub_expr < -min_one.exp() {
                 return Err("The Lambert W function is not defined for {}.".into());
             }
-            let iterations = (4).max((sub_expr.log10() / 3.0).ceil() as i32);
-            let mut w: f64 = 0.0;
-            for _ in 0..iterations {
-                #[cfg(feature = "verif_hooks")]
-                crate::verif_hooks::tick(3);
-                let exp_w = w.exp();
-                w -= (w * exp_w - sub_expr)
-                    / (exp_w * (w + 1.0) - (w + 2.0) * (w * exp_w - sub_expr) / (2.0 * w + 2.0));
-            }
-            Ok(Number::Float(w))
+            Ok(Number::Float(lambert_w0(sub_expr)))
         }
         ILog(expr1, expr2) => {
             let n = eval(*expr1)?;
@@ -285,7 +312,11 @@ pub fn eval(expr: Node) -> Result<Number, Box<dyn error::Error>> {
                 #[cfg(feature = "verif_hooks")]
                 crate::verif_hooks::tick(3);
                 x += 1;
-                n = (n.log10() / b.log10()).floor();
+                let next = (n.log10() / b.log10()).floor();
+                if !(next < n) {
+                    return Err("The iterated logarithm does not converge for this base".into());
+                }
+                n = next;
             }
             Ok(Number::Integer(x))
         }
